@@ -6,6 +6,7 @@ For each /verif/seeded/<id>/: git -C /repo apply patch.diff; run the quick check
 Prints one line per seed and exits 1 if a seed is no longer caught by its own property's check.
 """
 import os, sys, json, subprocess
+REPO = os.environ.get('DCMSTACK_REPO', REPO)
 VERIF = os.path.normpath(os.path.join(os.path.dirname(os.path.abspath(__file__)), '..', '..'))
 
 
@@ -18,7 +19,7 @@ def main():
     own = '--own' in sys.argv        # only the check of the seed's own property
     only = [a for a in sys.argv[1:] if not a.startswith('--')]
     bad = 0
-    if sh(['git', '-C', '/repo', 'status', '--short'])[1].strip():
+    if sh(['git', '-C', REPO, 'status', '--short'])[1].strip():
         print('/repo not clean'); return 2
     for sid in sorted(os.listdir(os.path.join(VERIF, 'seeded'))):
         d = os.path.join(VERIF, 'seeded', sid)
@@ -27,7 +28,7 @@ def main():
             continue
         meta = json.load(open(mp))
         checks = [meta['property']] if own else sorted(set([meta['property']] + list(meta.get('caught_by', []))))
-        rc, out = sh(['git', '-C', '/repo', 'apply', os.path.join(d, 'patch.diff')])
+        rc, out = sh(['git', '-C', REPO, 'apply', os.path.join(d, 'patch.diff')])
         if rc != 0:
             print(sid, 'patch does not apply'); bad += 1; continue
         res = {}
@@ -37,7 +38,7 @@ def main():
                 nf = any(l.startswith('VIOLATION') and l.rstrip().endswith('no-failing-input-found') for l in out.splitlines())
                 res[c] = {0: 'MISSED', 1: 'caught' + ('(no-input)' if nf else ''), 2: 'CRASH'}.get(rc, 'rc%d' % rc)
         finally:
-            sh(['git', '-C', '/repo', 'checkout', '--', '.'])
+            sh(['git', '-C', REPO, 'checkout', '--', '.'])
             sh(['git', '-C', VERIF, 'checkout', '--', 'evidence'])
         ok = res.get(meta['property'], '').startswith('caught')
         bad += 0 if ok else 1
